@@ -237,14 +237,98 @@ def run(ctx):
             ct = [c.block for c in h.calls(CS + "transaction")]
             st = [c.block for c in h.calls(SS + "transaction")]
             k = 0
+            hsw_r5 = switches(h)
+
+            hdefs_r5 = h.defs()
+
+            def flag_of(sb):
+                """the named bool local a switch tests, and whether negated: `switchInt(move _t)` with `_t = copy L` / `_t = Not(copy L)` (or L itself)"""
+                t = h.blocks[sb]["term"]
+                if t["k"] != "switch":
+                    return None
+                l, neg = op_local(t["op"]), False
+                for _ in range(3):
+                    if l is None:
+                        return None
+                    if h.varnames.get(l) and h.locals[l]["ty"] == "bool":
+                        return (l, neg)
+                    ds = hdefs_r5.get(l, [])
+                    if len(ds) != 1 or ds[0][0] != "assign":
+                        return None
+                    rv = ds[0][3]["rv"]
+                    if rv["k"] == "use":
+                        l = op_local(rv["op"])
+                    elif rv["k"] == "un" and rv["op"] == "Not":
+                        l, neg = op_local(rv["a"]), not neg
+                    else:
+                        return None
+                return None
+
+            def same_flag_edges(c):
+                """a round trip that is made only where a named bool of the arm is true (`if should_send_to_server { send_and_receive_loop }`): further tests of that very
+                local cannot come out false on the same way through - their false edges are not ways from this round trip (path-insensitive correlation)"""
+                out = set()
+                for sb, tgt in h.direct_control_deps(c.block):
+                    fl = flag_of(sb)
+                    sw0 = next((sw for sw in hsw_r5 if sw.block == sb and sw.is_bool()), None)
+                    if fl is None or sw0 is None:
+                        continue
+                    loc, neg0 = fl
+                    te0, fe0 = sw0.bool_edges()
+                    val0 = (tgt == te0[1]) != neg0   # value of the local on the edge that leads to the round trip
+                    for sw in hsw_r5:
+                        if sw.block == sb or not sw.is_bool():
+                            continue
+                        f2 = flag_of(sw.block)
+                        if f2 is None or f2[0] != loc:
+                            continue
+                        te, fe = sw.bool_edges()
+                        # the edge on which the local has the other value
+                        out.add(fe if (val0 != f2[1]) else te)
+                return out
             for c in h.calls("pgcat::client::Client::send_and_receive_loop", "pgcat::client::Client::receive_server_message"):
                 if c.block not in inner_blocks:
                     continue
                 k += 1
+                infeasible = same_flag_edges(c)
                 for nm, blocks in (("client", ct), ("server", st)):
-                    par = h.reach([c.target], avoid_blocks=[inner] + blocks, want_parents=True)
+                    par = h.reach([c.target], avoid_blocks=[inner] + blocks, avoid_edges=infeasible, want_parents=True)
                     w = [u for (u, v) in exits if u in par]
                     r5.check(not w, "release-counts:%s#%d" % (nm, k), "a release after %s counts a %s transaction" % (c.name.split("::")[-1], nm), "the server can be released after %s without counting the transaction on the %s" % (c.name.split("::")[-1], nm), c.where())
+            # ... and only then: `transaction totals equal the number of transactions actually executed on the servers`. A counting site is reached from the
+            # read of a client message only through a round trip - a batch pgcat answers from its statement cache alone (Parse of a statement the connection
+            # has, Close) has run nothing (D73). A named bool that guards both the round trip and the count is followed consistently (both values tried).
+            inner_rm = [c.target for c in h.calls("pgcat::messages::read_message") if c.block in inner_blocks and c.target is not None]
+            trips = [c.block for c in h.calls("pgcat::client::Client::send_and_receive_loop", "pgcat::client::Client::receive_server_message", "pgcat::client::Client::send_server_message") if c.block in inner_blocks]
+            flag_sw = {}
+            for sw in hsw_r5:
+                if not sw.is_bool() or sw.block not in inner_blocks:
+                    continue
+                f2 = flag_of(sw.block)
+                if f2 is not None:
+                    flag_sw.setdefault(f2[0], []).append((sw, f2[1]))
+            for nm, blocks in (("client", ct), ("server", st)):
+                cnt_in = [b_ for b_ in blocks if b_ in inner_blocks]
+                wit = h.uncrossed_path(inner_rm, cnt_in, blocks=trips + [inner]) if cnt_in and inner_rm else None
+                if wit is not None:
+                    # retry with each guarding flag held constant
+                    for loc, sws in flag_sw.items():
+                        if not any(sw.block in wit for sw, _n in sws):
+                            continue
+                        both_clean = True
+                        for val in (True, False):
+                            avoid = set()
+                            for sw, neg in sws:
+                                te, fe = sw.bool_edges()
+                                avoid.add(fe if (val != neg) else te)
+                            if h.uncrossed_path(inner_rm, cnt_in, blocks=trips + [inner], edges=avoid) is not None:
+                                both_clean = False
+                        if both_clean:
+                            wit = None
+                            break
+                r5.check(bool(cnt_in) and wit is None, "counted-only-after-a-round-trip:" + nm, "a %s transaction is counted in the transaction loop only on ways that passed a round trip since the client's message was read" % nm,
+                         "a %s transaction is counted on a way that sent nothing to the server since the client's message was read: a batch answered from the statement cache alone (`Parse name; Sync` of a statement the connection has, "
+                         "`Close name; Sync`) shows as a transaction in SHOW STATS / SHOW SERVERS / SHOW CLIENTS" % nm, "", wit and h.describe_path(wit))
             # ... once: a transaction is counted where it ends. A round trip that only started a COPY (CopyInResponse) has not ended
             # anything, the CopyDone/CopyFail arm counts it; so every counting site is reached only where in_copy_mode() was false after the round trip
             hsw5 = switches(h)
